@@ -26,12 +26,13 @@ Definition d_cfg (v : val) : config :=
 
 Definition d_q (v : val) : qres := match v with VN 0 => QOk | VN c => QFail c | _ => QOk end.
 
-Definition d_au (v : val) : auth_outcome :=
+Fixpoint d_au (v : val) : auth_outcome :=
   match v with
   | VL [VN 0; VB cid] => AOk cid
   | VL [VN 1] => ABadArg
   | VL [VN 2] => AErr501
   | VL [VN 3] => AErr504
+  | VL [VN 5; inner] => AInsecure (d_au inner)
   | _ => ARaise
   end.
 
